@@ -94,6 +94,9 @@ type c14Case struct {
 
 var fixedHBH = []string{"connection", "keep-alive", "proxy-authenticate", "proxy-authorization", "proxy-connection", "te", "trailer", "transfer-encoding", "upgrade"}
 
+// stamped are the headers the stack itself writes on a request.
+var stamped = map[string]bool{"via": true, "x-forwarded-for": true, "x-forwarded-proto": true, "x-forwarded-host": true, "x-forwarded-url": true}
+
 func isFixedHBH(lname string) bool {
 	for _, h := range fixedHBH {
 		if h == lname {
@@ -276,6 +279,11 @@ func (g *genCtx) draw() *hset {
 				toks = append(toks, customHop[rng.Intn(len(customHop))])
 			case x < 7:
 				toks = append(toks, []string{"keep-alive", "te", "upgrade", "proxy-connection", "transfer-encoding", "trailer"}[rng.Intn(6)])
+				if rng.Intn(3) == 0 {
+					// a client may name any header, also the ones this proxy stamps: what the
+					// client sent under that name must go, the proxy's own stamp must stay
+					toks[len(toks)-1] = []string{"Via", "X-Forwarded-For", "X-Forwarded-Proto", "X-Forwarded-Host", "X-Forwarded-Url"}[rng.Intn(5)]
+				}
 			case x < 9:
 				toks = append(toks, "close")
 			default:
@@ -333,13 +341,13 @@ func (g *genCtx) draw() *hset {
 
 	// --- Via
 	if rng.Intn(100) < 65 {
-		others := []string{"1.1 alpha", "1.0 fred", "HTTP/1.1 proxy.example:8080", "1.1 beta (Apache/1.1)", "2 h2proxy", "1.1 martian-deadbeef00deadbeef00", "1.1 martian", "1.1 x" + g.instance, "1.1 " + g.instance + "x", "1.1 vegur"}
+		others := []string{"1.1 alpha", "1.0 fred", "HTTP/1.1 proxy.example:8080", "1.1 beta (Apache/1.1)", "2 h2proxy", "1.1 martian-deadbeef00deadbeef00", "1.1 martian", "1.1 x" + g.instance, "1.1 " + g.instance + "x", "1.1 vegur", "1.1", "bogus"}
 		var ents []string
 		for i, n := 0, rng.Intn(5); i < n; i++ {
 			ents = append(ents, others[rng.Intn(len(others))])
 		}
 		selfAt := -1
-		if !g.resp && rng.Intn(100) < 30 {
+		if !g.resp && rng.Intn(100) < 30 && !h.listed["via"] {
 			forms := []string{"1.1 " + g.instance, "1.0 " + g.instance, "HTTP/1.1 " + g.instance, "1.1  " + g.instance, "1.1\t" + g.instance, "1.1 " + g.instance + " (loop)"}
 			selfAt = rng.Intn(len(ents) + 1)
 			ents = append(ents[:selfAt:selfAt], append([]string{forms[rng.Intn(len(forms))]}, ents[selfAt:]...)...)
@@ -359,7 +367,11 @@ func (g *genCtx) draw() *hset {
 				}
 				idx += len(line)
 				h.viaLines++
-				fs = append(fs, msgx.Field{Name: mangleCase(rng, "Via"), Value: joinPlain(rng, line)})
+				v := joinPlain(rng, line)
+				if rng.Intn(3) == 0 {
+					v = joinOdd(rng, line) // empty list elements: ",,", ", ,", leading / trailing commas
+				}
+				fs = append(fs, msgx.Field{Name: mangleCase(rng, "Via"), Value: v})
 			}
 			h.viaIn = ents
 		}
@@ -488,6 +500,17 @@ func (g *genCtx) drawFraming(h *hset) {
 	h.fields = interleave(rng, append(h.fields, fs...))
 }
 
+// drawStatus draws a response status; every status is subject to the same
+// hop-by-hop clause. 101 only where no HTTP client has to interpret it.
+func drawStatus(rng *rand.Rand, allow1xx bool) int {
+	st := []int{200, 200, 200, 301, 401, 403, 404, 407, 407, 500, 502, 101}
+	n := len(st)
+	if !allow1xx {
+		n--
+	}
+	return st[rng.Intn(n)]
+}
+
 // request facts drawn next to the header set
 type reqFacts struct {
 	method, proto, host, target, remote, clientIP string
@@ -595,9 +618,27 @@ func checkRequestHeaders(got map[string][]string, h *hset, f reqFacts, instance 
 		}
 		return "multi-line"
 	}
+	// A stamped header that the client named in Connection: the client's lines
+	// are hop-by-hop and must go, the proxy's own stamp is still due.
+	viaIn, xffIn, xfp, xfh, xfu := h.viaIn, h.xffIn, h.xfp, h.xfh, h.xfu
+	if h.listed["via"] {
+		viaIn = nil
+	}
+	if h.listed["x-forwarded-for"] {
+		xffIn = nil
+	}
+	if h.listed["x-forwarded-proto"] {
+		xfp = nil
+	}
+	if h.listed["x-forwarded-host"] {
+		xfh = nil
+	}
+	if h.listed["x-forwarded-url"] {
+		xfu = nil
+	}
 	// hop-by-hop survivors
 	for n, v := range got {
-		if skip[n] {
+		if skip[n] || stamped[n] {
 			continue
 		}
 		if isFixedHBH(n) {
@@ -608,15 +649,23 @@ func checkRequestHeaders(got map[string][]string, h *hset, f reqFacts, instance 
 	}
 	// Via
 	gotVia := msgx.ListElems(got["via"])
-	wantVia := append(append([]string{}, h.viaIn...), fmt.Sprintf("%d.%d %s", f.major, f.minor, instance))
+	wantVia := append(append([]string{}, viaIn...), fmt.Sprintf("%d.%d %s", f.major, f.minor, instance))
 	if !eq(gotVia, wantVia) {
-		vs = append(vs, verdict{"C14:via:" + shape(h.viaLines), fmt.Sprintf("Via after the stack: got entries %q, want the %d existing entries in order followed by exactly one entry for this proxy %q", gotVia, len(h.viaIn), wantVia)})
+		cls := shape(h.viaLines)
+		if h.listed["via"] {
+			cls = "connection-listed"
+		}
+		vs = append(vs, verdict{"C14:via:" + cls, fmt.Sprintf("Via after the stack: got entries %q, want the %d existing entries in order followed by exactly one entry for this proxy %q (Via named in Connection: %v)", gotVia, len(viaIn), wantVia, h.listed["via"])})
 	}
 	// X-Forwarded-For
 	gotXFF := msgx.ListElems(got["x-forwarded-for"])
-	wantXFF := append(append([]string{}, h.xffIn...), f.clientIP)
+	wantXFF := append(append([]string{}, xffIn...), f.clientIP)
 	if !eq(gotXFF, wantXFF) {
-		vs = append(vs, verdict{"C14:xff:" + shape(h.xffLines), fmt.Sprintf("X-Forwarded-For after the stack: got %q, want existing values then the client address %q", gotXFF, wantXFF)})
+		cls := shape(h.xffLines)
+		if h.listed["x-forwarded-for"] {
+			cls = "connection-listed"
+		}
+		vs = append(vs, verdict{"C14:xff:" + cls, fmt.Sprintf("X-Forwarded-For after the stack: got %q, want existing values then the client address %q (named in Connection: %v)", gotXFF, wantXFF, h.listed["x-forwarded-for"])})
 	}
 	// Content-Length as a framing fact
 	if !skip["content-length"] {
@@ -639,16 +688,21 @@ func checkRequestHeaders(got map[string][]string, h *hset, f reqFacts, instance 
 	// everything else, including X-Forwarded-Proto/-Host/-Url
 	g2 := map[string][]string{}
 	for n, v := range got {
-		if skip[n] || isFixedHBH(n) || h.listed[n] || n == "via" || n == "x-forwarded-for" || n == "content-length" {
+		if skip[n] || isFixedHBH(n) || (h.listed[n] && !stamped[n]) || n == "via" || n == "x-forwarded-for" || n == "content-length" {
 			continue
 		}
 		g2[n] = v
 	}
 	want := wantRequest(h, f, instance, skip)
+	for n, in := range map[string][]string{"x-forwarded-proto": xfp, "x-forwarded-host": xfh, "x-forwarded-url": xfu} {
+		if in == nil { // absent, or named in Connection: set from the original URL
+			want[n] = map[string][]string{"x-forwarded-proto": {"http"}, "x-forwarded-host": {f.host}, "x-forwarded-url": {f.target}}[n]
+		}
+	}
 	for _, n := range []string{"x-forwarded-proto", "x-forwarded-host", "x-forwarded-url"} {
 		if !eq(g2[n], want[n]) {
 			pre := "preserving the existing values"
-			if (n == "x-forwarded-proto" && h.xfp == nil) || (n == "x-forwarded-host" && h.xfh == nil) || (n == "x-forwarded-url" && h.xfu == nil) {
+			if (n == "x-forwarded-proto" && xfp == nil) || (n == "x-forwarded-host" && xfh == nil) || (n == "x-forwarded-url" && xfu == nil) {
 				pre = "set from the original URL"
 			}
 			vs = append(vs, verdict{"C14:forwarded:" + n, fmt.Sprintf("%s: got %q want %q (%s)", n, g2[n], want[n], pre)})
@@ -888,7 +942,8 @@ func (d *direct) one(r *vh.Run, c c14Case) {
 	rh := g.draw()
 	g.drawFraming(rh)
 	rproto := "HTTP/1.1"
-	rhead := headText(rproto+" 200 OK", rh.fields)
+	rstatus := drawStatus(rng, c.Mode == "built")
+	rhead := headText(fmt.Sprintf("%s %d %s", rproto, rstatus, http.StatusText(rstatus)), rh.fields)
 	witness["response"] = rhead
 	var res *http.Response
 	if c.Mode == "parsed" {
@@ -905,14 +960,14 @@ func (d *direct) one(r *vh.Run, c c14Case) {
 			r.Inconclusive("textproto rejected a generated header block: "+err.Error(), witness)
 			return
 		}
-		res = &http.Response{Status: "200 OK", StatusCode: 200, Proto: rproto, ProtoMajor: 1, ProtoMinor: 1, Header: hd, Body: http.NoBody, Request: req}
+		res = &http.Response{Status: fmt.Sprintf("%d %s", rstatus, http.StatusText(rstatus)), StatusCode: rstatus, Proto: rproto, ProtoMajor: 1, ProtoMinor: 1, Header: hd, Body: http.NoBody, Request: req}
 	}
 	res.Request = req
 	if err := d.stack.ModifyResponse(res); err != nil {
 		viol(verdict{"C14:spurious-error:response", "ModifyResponse failed: " + err.Error()})
 	}
-	if res.StatusCode != 200 {
-		viol(verdict{"C14:spurious-error:response", fmt.Sprintf("status changed to %d for a request without a loop", res.StatusCode)})
+	if res.StatusCode != rstatus {
+		viol(verdict{"C14:spurious-error:response", fmt.Sprintf("status changed from %d to %d for a request without a loop", rstatus, res.StatusCode)})
 	}
 	witness["response_headers_after_stack"] = res.Header
 	rskip := map[string]bool{}
@@ -929,6 +984,7 @@ func (d *direct) one(r *vh.Run, c c14Case) {
 	r.Count("response_header_lines_compared", int64(len(rh.fields)))
 	r.Class(cls)
 	r.Class("resp|" + rh.class() + "|mode=" + c.Mode)
+	r.Class(fmt.Sprintf("resp-status|%d|mode=%s", rstatus, c.Mode))
 	if c.Idx%997 == 3 {
 		r.Sample(map[string]interface{}{"mode": c.Mode, "request": head, "after_stack": req.Header})
 	}
@@ -1057,7 +1113,8 @@ func (p *proxyRun) one(r *vh.Run, c c14Case) {
 	g.resp = true
 	rh := g.draw()
 	g.drawFraming(rh)
-	rhead := headText("HTTP/1.1 200 OK", rh.fields)
+	rstatus := drawStatus(rng, false)
+	rhead := headText(fmt.Sprintf("HTTP/1.1 %d %s", rstatus, http.StatusText(rstatus)), rh.fields)
 	respWire := append([]byte(rhead), rh.body...)
 	noFraming := rh.clValue == "" && !rh.teChunked
 	if noFraming {
@@ -1133,9 +1190,10 @@ func (p *proxyRun) one(r *vh.Run, c c14Case) {
 		viol(v)
 	}
 	r.Count("request_header_lines_compared", int64(len(h.fields)))
-	if res.Client.Status != 200 {
-		viol(verdict{"C14:spurious-error:response", fmt.Sprintf("client got status %d for a request without a loop", res.Client.Status)})
+	if res.Client.Status != rstatus {
+		viol(verdict{"C14:spurious-error:response", fmt.Sprintf("client got status %d for a request without a loop, origin sent %d", res.Client.Status, rstatus)})
 	}
+	r.Class(fmt.Sprintf("resp-status|%d|mode=proxy", rstatus))
 	rskip := map[string]bool{"content-length": true, "transfer-encoding": true, "trailer": true}
 	if goDropsConnection(rh) {
 		rh.listed = map[string]bool{}
